@@ -94,13 +94,15 @@ def _int_by_validation(prog: Program, cls: ClassInfo, var_type: str, eff) -> boo
     configuration under which the helper is used (kMinPathError: path length factors require integer weights)."""
     if var_type != "('integer' if self.weight_type == int else 'continuous')":
         return False
-    if not any("len(self.path_length_factors) > 0" in g for g in eff["guards"]):
+    from sa import boolnf as B
+    factors = B.parse(ast.parse("len(self.path_length_factors) > 0", mode="eval").body)
+    if not B.implies(eff["_guard"], factors):
         return False
+    want = B.parse(ast.parse("self.weight_type == float and len(self.path_length_factors) > 0", mode="eval").body)
     init = prog.lookup_method(cls, "__init__")
     for st in walk_no_nested(init.node):
         if isinstance(st, ast.If) and any(isinstance(b, ast.Raise) for b in st.body):
-            t = norm(st.test)
-            if "self.weight_type == float" in t and "len(self.path_length_factors) > 0" in t:
+            if B.implies(want, B.parse(st.test)):
                 return True
     return False
 
